@@ -111,6 +111,10 @@ def monitor(c, gline):
         return ("driver-output", "no replay monitors in %r" % gline[:200])
     for tok in mons[0].split(" ")[1:]:
         name, _, verdict = tok.partition("=")
+        if verdict != "ok" and name == "conv":
+            return ("mod-replay:" + re.sub(r"[^A-Za-z-]", "", verdict.split(":")[0]),
+                    "JSON -> protobuf conversion of the durable raft log (LevelDBStore.ConvertToProto, the restart with -pre1.0_protobuf=true): "
+                    "%s - an entry no longer decodes to the same robust.Message (type, session, data, ClientMessageId, ...)" % verdict)
         if verdict != "ok":
             return ("mod-replay:" + re.sub(r"[^A-Za-z-]", "", verdict.split(":")[0]),
                     "replay of the durable log (%s) vs. replay of the log without the marked entries: %s" % (name, verdict))
@@ -258,7 +262,7 @@ def run(ck, replay):
                       "entries at random positions from a logged-in session (handler reached), an unregistered session or a deleted session "
                       "(handler not reached); protobuf (65%) and legacy JSON encoding; every case: child processes until a clean run, then "
                       "replays of the durable log (plain; snapshot+restart before/after the marked entries with fold-all and fold-nothing "
-                      "horizons) against the replay of the log without the marked entries. non-trivial = at least one child died; distinct by case text")
+                      "horizons; JSON cases also after the JSON->protobuf conversion of the raft log) against the replay of the log without the marked entries. non-trivial = at least one child died; distinct by case text")
     ck.cov["input_distribution"] = dist
     ck.cov["samples"] = [{"case": lines[i][:500], "impl": glines[i], "model": mlines[i]} for i in range(min(2, len(lines)))]
     seen = set()
